@@ -1,6 +1,255 @@
 package main
 
-func cmdCheck(args []string) int    { return 2 }
-func cmdLock(args []string) int     { return 2 }
-func cmdSelftest(args []string) int { return 2 }
-func cmdReplay(args []string) int   { return 2 }
+import (
+	"encoding/json"
+	"flag"
+	"fmt"
+	"go/types"
+	"os"
+	"path/filepath"
+	"sort"
+	"strings"
+)
+
+// lemmaObligation turns `//@ lemma name (x:Int, ...) : expr` into a closed SMT goal.
+func (eng *Engine) lemmaObligation(lm *LemmaSpec) *Obligation {
+	vc := newVC(eng, nil, nil, nil, nil)
+	vc.lemmaName = "lemma " + lm.Name
+	st := vc.initialState()
+	binds := map[string]Val{}
+	for _, v := range lm.Vars {
+		parts := strings.SplitN(v, ":", 2)
+		name := strings.TrimSpace(parts[0])
+		sortS := "Int"
+		var ty types.Type = types.Typ[types.Int]
+		if len(parts) == 2 {
+			switch strings.TrimSpace(parts[1]) {
+			case "Bool", "bool":
+				sortS, ty = "Bool", types.Typ[types.Bool]
+			case "int64", "int", "Int":
+				sortS = "Int"
+			case "string", "Str":
+				sortS, ty = vc.strSort(), types.Typ[types.String]
+			}
+		}
+		n := vc.declConst("lv_"+name, sortS)
+		if strings.HasSuffix(v, "int64") || strings.HasSuffix(v, ":int") {
+			vc.assume(vc.typeInv(n, types.Typ[types.Int64]))
+		}
+		binds[name] = Val{T: n, Ty: ty}
+	}
+	env := &SpecEnv{vc: vc, pkgPath: lm.PkgPath, binds: binds, cur: st, old: st}
+	goal := env.boolExpr(lm.Expr)
+	o := &Obligation{Name: "lemma/" + lm.Name, Kind: "lemma", Func: "lemma", Prefix: len(vc.asserts), Guard: "true", Goal: goal, vc: vc, Pos: lm.Pos, Props: lm.Props}
+	return o
+}
+
+// sweepItems: property-specific zero-annotation obligation families (filled in sweeps.go).
+func (eng *Engine) sweepItems(prop string) []*Item {
+	var out []*Item
+	for _, f := range sweepFuncs[prop] {
+		out = append(out, f(eng)...)
+	}
+	return out
+}
+
+var sweepFuncs = map[string][]func(*Engine) []*Item{}
+
+// ---------------------------------------------------------------- selftest (must-fail corpus)
+
+type Mutant struct {
+	File     string   `json:"file"` // relative to /repo
+	Old      string   `json:"old"`
+	New      string   `json:"new"`
+	Expect   []string `json:"expect"`   // substrings of obligation names expected to fail
+	Negative bool     `json:"negative"` // semantics-preserving rewrite: nothing may fail
+	Note     string   `json:"note"`
+	name     string
+}
+
+func loadMutants(prop string) []Mutant {
+	dir := filepath.Join(verifDir, "selftest", prop)
+	ents, _ := os.ReadDir(dir)
+	var out []Mutant
+	for _, e := range ents {
+		if !strings.HasSuffix(e.Name(), ".mut") {
+			continue
+		}
+		b, err := os.ReadFile(filepath.Join(dir, e.Name()))
+		if err != nil {
+			continue
+		}
+		var m Mutant
+		if err := json.Unmarshal(b, &m); err != nil {
+			fmt.Printf("selftest: bad mutant file %s: %v\n", e.Name(), err)
+			continue
+		}
+		m.name = e.Name()
+		out = append(out, m)
+	}
+	sort.Slice(out, func(i, j int) bool { return out[i].name < out[j].name })
+	return out
+}
+
+// runMutant applies one in-memory rewrite and reports the locked obligations that fail.
+func runMutant(prop string, m Mutant, seed int) (failed []string, err error) {
+	path := filepath.Join("/repo", m.File)
+	src, e := os.ReadFile(path)
+	if e != nil {
+		return nil, e
+	}
+	if !strings.Contains(string(src), m.Old) {
+		return nil, fmt.Errorf("pattern not found in %s (source changed; mutant is stale)", m.File)
+	}
+	ov := map[string][]byte{path: []byte(strings.Replace(string(src), m.Old, m.New, 1))}
+	eng, e := loadEngine("/repo", repoPkgPatterns, ov)
+	if e != nil {
+		return nil, e
+	}
+	run := runProperty(eng, prop, "quick", seed, 0)
+	lock := readLock()
+	generated := map[string]bool{}
+	for _, it := range run.Items {
+		generated[it.Name] = true
+		if it.Locked && it.Status != "discharged" {
+			failed = append(failed, it.Name)
+		}
+	}
+	for _, n := range lock[prop] {
+		if !generated[n] {
+			for _, p := range strings.Split(n, "/") {
+				if contractKind(p) {
+					failed = append(failed, n+" (not generated)")
+					break
+				}
+			}
+		}
+	}
+	return failed, nil
+}
+
+func runSelftest(prop string, seed int) (bool, []string) {
+	ok := true
+	var notes []string
+	for _, m := range loadMutants(prop) {
+		failed, err := runMutant(prop, m, seed)
+		if err != nil {
+			notes = append(notes, fmt.Sprintf("%s: skipped (%v)", m.name, err))
+			continue
+		}
+		if m.Negative {
+			if len(failed) > 0 {
+				ok = false
+				notes = append(notes, fmt.Sprintf("%s: NEGATIVE CONTROL FAILED (brittle proof): %s", m.name, strings.Join(failed, ", ")))
+			} else {
+				notes = append(notes, fmt.Sprintf("%s: negative control ok", m.name))
+			}
+			continue
+		}
+		hit := len(failed) > 0
+		for _, ex := range m.Expect {
+			found := false
+			for _, f := range failed {
+				if strings.Contains(f, ex) {
+					found = true
+				}
+			}
+			if !found {
+				hit = false
+			}
+		}
+		if hit {
+			notes = append(notes, fmt.Sprintf("%s: detected (%d locked obligations fail)", m.name, len(failed)))
+		} else {
+			ok = false
+			notes = append(notes, fmt.Sprintf("%s: NOT DETECTED as expected (failed: %s)", m.name, strings.Join(failed, ", ")))
+		}
+	}
+	return ok, notes
+}
+
+func cmdSelftest(args []string) int {
+	fs := flag.NewFlagSet("selftest", flag.ExitOnError)
+	prop := fs.String("property", "", "property id (empty = all with a corpus)")
+	fs.Parse(args)
+	var props []string
+	if *prop != "" {
+		props = strings.Split(*prop, ",")
+	} else {
+		ents, _ := os.ReadDir(filepath.Join(verifDir, "selftest"))
+		for _, e := range ents {
+			if e.IsDir() {
+				props = append(props, e.Name())
+			}
+		}
+	}
+	all := true
+	for _, p := range props {
+		ok, notes := runSelftest(p, 0)
+		for _, n := range notes {
+			fmt.Printf("%s %s\n", p, n)
+		}
+		if !ok {
+			all = false
+		}
+	}
+	if !all {
+		return 1
+	}
+	return 0
+}
+
+// ---------------------------------------------------------------- replay
+
+// replayViolation writes the replay file of a violated obligation and tries to
+// confirm the solver's counter-model on the real code.
+func replayViolation(run *CheckRun, it *Item) (string, bool) {
+	extra := map[string]any{}
+	confirmed := false
+	if strings.HasPrefix(strings.TrimSpace(it.Raw), "sat") {
+		model := parseModel(it.Raw)
+		extra["model_inputs"] = model
+		if ok, info := concreteReplay(run.Prop, it, model); info != nil {
+			extra["concrete_replay"] = info
+			confirmed = ok
+		}
+	}
+	return writeReplay(run.Prop, it, extra), confirmed
+}
+
+func cmdReplay(args []string) int {
+	if len(args) < 1 {
+		fmt.Println("usage: govc replay <replay.json>")
+		return 2
+	}
+	b, err := os.ReadFile(args[0])
+	if err != nil {
+		fmt.Println(err)
+		return 2
+	}
+	var m map[string]any
+	if err := json.Unmarshal(b, &m); err != nil {
+		fmt.Println(err)
+		return 2
+	}
+	fmt.Printf("obligation: %v\nsource: %v\nstatus: %v\ndetail: %v\n", m["obligation"], m["source"], m["status"], m["detail"])
+	if cr, ok := m["concrete_replay"].(map[string]any); ok {
+		if cmd, ok := cr["cmd"].(string); ok {
+			fmt.Println("re-running:", cmd)
+			return rerunConcrete(cr)
+		}
+	}
+	// re-run the solver on the recorded SMT file when it still exists
+	if f, ok := m["smt_file"].(string); ok && f != "" {
+		if _, err := os.Stat(f); err == nil {
+			r := solve(f, 30000, 0)
+			fmt.Printf("solver re-run: %s (%s, %.2fs)\n", r.Status, r.Solver, r.Secs)
+			if r.Status != "unsat" {
+				return 1
+			}
+			return 0
+		}
+	}
+	fmt.Println("no concrete input recorded (no-failing-input-found); re-run the check to regenerate the obligation")
+	return 1
+}
